@@ -669,7 +669,14 @@ Definition op_defaults (tbl : defaults_table) (op : opid) : list (str * attr) :=
   match find (fun e => opid_eqb (fst e) op) tbl with Some e => snd e | None => [] end.
 Definition add_defaults_node (tbl : defaults_table) (n : node) : node :=
   mkNode (n_op n) (add_attrs (n_attrs n) (op_defaults tbl (n_op n))) (n_ins n) (n_outs n).
-Definition add_default_attrs (tbl : defaults_table) (m : model) : model := map_graphs (map_nodes (add_defaults_node tbl)) m.
+(* only the nodes met by RecursiveGraphIterator from the main graph and the functions (`keys`) are visited; subgraphs of
+   removed nodes that still hold uses stay in the table untouched *)
+Definition add_defaults_at (tbl : defaults_table) (keys : list vid) (n : node) : node :=
+  if memN (node_key n) keys then add_defaults_node tbl n else n.
+Definition add_default_attrs_keys (tbl : defaults_table) (keys : list vid) (m : model) : model :=
+  map_graphs (map_nodes (add_defaults_at tbl keys)) m.
+Definition add_default_attrs (tbl : defaults_table) (fuel : nat) (m : model) : model :=
+  add_default_attrs_keys tbl (map snd (rec_nodes fuel m GMain ++ flat_map (rec_nodes fuel m) (func_refs m))) m.
 
 (* ---------------------------------------------------------------- RemoveUnusedFunctionsPass *)
 Fixpoint used_funcs (fuel : nat) (m : model) (r : gref) (used : list opid) : list opid :=
